@@ -211,6 +211,8 @@ func (d *disconnectHandler) handleGracePeriodExpired(generation uint64) {
 	// the election mutex while it waits for d.mu, and becomeFollower needs the
 	// election mutex.
 	d.mu.Unlock()
+	// gofail: var verifGraceExpiredAfterUnlock struct{}
+	// verifYield("graceExpiredAfterUnlock")
 
 	// No reconnect notification arrived during the grace period (whatever the
 	// connection status says now: closed is not reconnected), demote if still leader
@@ -252,6 +254,9 @@ func (d *disconnectHandler) stop() {
 }
 
 func (e *kvElection) handleReconnect() {
+	// gofail: var verifReconnectEntry struct{}
+	// verifYield("reconnectEntry")
+
 	// Cancel the grace period under the handler's own mutex, before taking the
 	// election mutex (the expiry path takes them in that order too).
 	e.disconnectHandler.stop()
